@@ -251,7 +251,7 @@ def _lr(rng):
     return float(rng.choice([1e-3, 0.05, 0.3, 1.0, float(np.exp(rng.uniform(np.log(1e-4), np.log(3.0))))]))
 
 
-def rand_spec(ctx, kind=None, k=None, pattern=None, large=None, second=None):
+def rand_spec(ctx, kind=None, k=None, pattern=None, large=None, second=None, history=None):
     rng = ctx.rng
     kind = kind or str(rng.choice(["positive", "complex", "dm"]))
     large = bool(rng.random() < 0.10) if large is None else large
@@ -293,8 +293,19 @@ def rand_spec(ctx, kind=None, k=None, pattern=None, large=None, second=None):
             "starting_epoch": starting_epoch, "optimizer_args": optimizer_args, "data_as_tensor": data_as_tensor,
             "scheduler": sched, "data": data.tolist(), "bases": bases,
             "am": gen.plist(*am), "ph": gen.plist(*ph) if ph is not None else None,
-            "torch_seed": ctx.torch_seed(), "second": None}
-    if second:
+            "torch_seed": ctx.torch_seed(), "second": None, "history": None}
+    if second is False and history is None:
+        history = False
+    if history is None:
+        history = bool(rng.random() < 0.40)
+    if history:
+        # a same-object history: 1..2 further fit() calls, each preceded by 0..2 mutations of the live state
+        ops = ["reinit", "rbm_init"] if large else MUT_OPS
+        steps = [[str(o) for o in rng.choice(ops, size=int(rng.choice([0, 1, 1, 1, 2])), replace=False)]
+                 for _ in range(int(rng.choice([1, 1, 2])))]
+        mid = None if large else {i for i in range(len(steps)) if rng.random() < 0.25}
+        add_history(ctx, spec, steps, same_last=bool(rng.random() < 0.3), mid=mid or None)
+    elif second:
         lr2 = _lr(rng)
         while math.isclose(lr2, lr, rel_tol=0.05):
             lr2 = lr * float(rng.choice([0.1, 3.0]))
@@ -302,6 +313,207 @@ def rand_spec(ctx, kind=None, k=None, pattern=None, large=None, second=None):
                           "k": int(rng.integers(0, 4)), "neg_batch_size": int(rng.integers(1, 6)),
                           "pos_batch_size": pb, "optimizer_args": optimizer_args, "data_as_tensor": data_as_tensor}
     return spec
+
+
+# ------------------------------------------------------------------------------------------ histories on ONE state object
+# Between two evaluations (fit() calls, direct compute_batch_gradients calls) the harness applies the legal mutations the
+# library offers or tolerates.  A mutation is a JSON dict {"op": ..., ...}; ops that write values carry them
+# ("targets": {network: {parameter name: nested list}}), so that a replay applies exactly the same history.
+VALUE_OPS = ["data_assign", "data_copy", "copy_nograd"]                       # in place on the SAME nn.Parameter objects
+MUT_OPS = ["reinit", "rbm_init", "rebind", "replace_net", "load_state_dict", "state_load", "ext_step"] + VALUE_OPS
+MID_OPS = VALUE_OPS + ["ext_step"]                                            # tolerated DURING a fit (from a callback)
+_COUNTER = itertools.count()
+
+
+def _nets_of(kind):
+    return ["rbm_am"] if kind == "positive" else ["rbm_am", "rbm_ph"]
+
+
+def _layout_kind(kind):
+    return LAYOUT_P if kind == "dm" else LAYOUT_B
+
+
+def _net_values(ctx, kind, net, nv, nh, na, wscale=1.0):
+    """fresh values for every parameter of one network {name: nested list}"""
+    if kind == "dm":
+        vals = list(gen.prbm_params(ctx, nv, nh, na, phase=(net == "rbm_ph")))
+    else:
+        vals = list(gen.brbm_params(ctx, nv, nh))
+    vals = [np.clip(np.asarray(a, dtype=float), -6.0, 6.0) for a in vals]
+    vals[0] = vals[0] * wscale
+    return {n: v.tolist() for n, v in zip(_layout_kind(kind), vals)}
+
+
+def rand_mutation(ctx, kind, nv, nhs, na, op=None, ops=None, wscale=1.0):
+    """One mutation; nhs = {network: current number of hidden units} (updated when a network is replaced by one of another size)."""
+    rng = ctx.rng
+    nets = _nets_of(kind)
+    op = op or str(rng.choice(ops or MUT_OPS))
+    net = str(rng.choice(nets))
+    if op == "reinit":
+        return {"op": op}
+    if op == "rbm_init":
+        return {"op": op, "net": net, "zero_weights": bool(rng.random() < 0.25)}
+    if op == "replace_net":
+        nh_new = nhs[net]
+        if kind != "dm" and max(nv, nh_new) <= 4 and rng.random() < 0.4:
+            nh_new = int(rng.integers(1, 4))               # a network of another size is tolerated (only nv is shared)
+        nhs[net] = nh_new
+        return {"op": op, "net": net, "nh": nh_new, "targets": {net: _net_values(ctx, kind, net, nv, nh_new, na, wscale)}}
+    if op == "ext_step":
+        return {"op": op, "net": net, "lr": float(rng.choice([0.1, 1.0])),
+                "targets": {net: _net_values(ctx, kind, net, nv, nhs[net], na, wscale)}}
+    if op == "state_load":
+        return {"op": op, "targets": {n: _net_values(ctx, kind, n, nv, nhs[n], na, wscale) for n in nets}}
+    chosen = nets if (len(nets) > 1 and rng.random() < 0.35) else [net]
+    tg = {}
+    for n in chosen:
+        vals = _net_values(ctx, kind, n, nv, nhs[n], na, wscale)
+        if op != "load_state_dict" and rng.random() < 0.6:          # a subset of the parameters (load_state_dict needs all)
+            names = list(vals)
+            keep = [str(x) for x in rng.choice(names, size=int(rng.integers(1, len(names) + 1)), replace=False)]
+            vals = {nm: vals[nm] for nm in names if nm in keep}
+        tg[n] = vals
+    return {"op": op, "targets": tg}
+
+
+def apply_mutation(ctx, s, kind, mut):
+    """Apply one mutation to the live state `s`, the way a user would."""
+    import torch
+    from torch import nn
+    from qucumber.rbm import BinaryRBM, PurificationRBM
+    op = mut["op"]
+
+    def T(v):
+        return torch.tensor(np.array(v, dtype=float), dtype=torch.double)
+
+    if op == "reinit":
+        s.reinitialize_parameters()
+    elif op == "rbm_init":
+        if mut.get("zero_weights"):
+            getattr(s, mut["net"]).initialize_parameters(zero_weights=True)
+        else:
+            getattr(s, mut["net"]).initialize_parameters()
+    elif op == "replace_net":
+        net = mut["net"]; vals = mut["targets"][net]
+        nv = int(np.array(vals["visible_bias"]).shape[0])
+        if kind == "dm":
+            new = PurificationRBM(nv, mut["nh"], int(np.array(vals["aux_bias"]).shape[0]), gpu=False)
+        else:
+            new = BinaryRBM(nv, mut["nh"], gpu=False)
+        for name, v in vals.items():
+            getattr(new, name).data = T(v)
+        setattr(s, net, new)                                   # the public setter
+    elif op == "rebind":
+        for net, vals in mut["targets"].items():
+            for name, v in vals.items():
+                setattr(getattr(s, net), name, nn.Parameter(T(v), requires_grad=False))
+    elif op == "data_assign":
+        for net, vals in mut["targets"].items():
+            for name, v in vals.items():
+                getattr(getattr(s, net), name).data = T(v)
+    elif op == "data_copy":
+        for net, vals in mut["targets"].items():
+            for name, v in vals.items():
+                getattr(getattr(s, net), name).data.copy_(T(v))
+    elif op == "copy_nograd":
+        with torch.no_grad():
+            for net, vals in mut["targets"].items():
+                for name, v in vals.items():
+                    getattr(getattr(s, net), name).copy_(T(v))
+    elif op == "load_state_dict":
+        for net, vals in mut["targets"].items():
+            getattr(s, net).load_state_dict({name: T(v) for name, v in vals.items()})
+    elif op == "state_load":
+        import os
+        path = os.path.join(ctx.scratch, "c06_state_%d_%d.pt" % (os.getpid(), next(_COUNTER)))
+        blob = {net: {name: T(v) for name, v in vals.items()} for net, vals in mut["targets"].items()}
+        if hasattr(s, "unitary_dict"):
+            blob["unitary_dict"] = {k: v.clone() for k, v in s.unitary_dict.items()}
+        torch.save(blob, path)                                 # the documented file layout: {network: state_dict, **metadata}
+        try:
+            s.load(path)
+        finally:
+            if os.path.exists(path):
+                os.remove(path)
+    elif op == "ext_step":
+        # a user's own optimizer over the network's parameters: one in-place step; leaves stale .grad fields behind
+        rbm = getattr(s, mut["net"])
+        ps = list(rbm.parameters())
+        for name, v in mut["targets"][mut["net"]].items():
+            getattr(rbm, name).grad = T(v)
+        torch.optim.SGD(ps, lr=mut["lr"]).step()
+    else:
+        raise ValueError("unknown mutation " + str(op))
+
+
+def rand_run(ctx, base, same=False):
+    """Arguments of a further fit() call on the same state (same=True: exactly the arguments of the first call again)."""
+    rng = ctx.rng
+    if same:
+        return {k: copy.deepcopy(base[k]) for k in RUN_KEYS}
+    lr2 = _lr(rng)
+    while math.isclose(lr2, base["lr"], rel_tol=0.05):
+        lr2 = base["lr"] * float(rng.choice([0.1, 3.0]))
+    return {"lr": lr2, "scheduler": _sched(rng), "epochs": int(rng.integers(1, 3)), "starting_epoch": int(rng.choice([1, 1, 2])),
+            "k": int(rng.integers(0, 4)), "neg_batch_size": (None if rng.random() < 0.2 else int(rng.integers(1, 6))),
+            "pos_batch_size": base["pos_batch_size"], "optimizer_args": base["optimizer_args"], "data_as_tensor": base["data_as_tensor"]}
+
+
+def rand_mid(ctx, spec, run, nhs, wscale=1.0):
+    """An in-place edit of live parameters made by a callback at the start of one batch of the run."""
+    rng = ctx.rng
+    nb = math.ceil(spec["N"] / run["pos_batch_size"])
+    m = rand_mutation(ctx, spec["state"], spec["nv"], dict(nhs), spec["na"] or 1, ops=MID_OPS, wscale=wscale)
+    m["epoch"] = int(run["starting_epoch"] + rng.integers(0, run["epochs"]))
+    m["batch"] = int(rng.integers(0, nb))
+    return m
+
+
+def add_history(ctx, spec, ops_per_step, same_last=False, mid=None):
+    """Extend spec by further fit() calls on the same state, step i preceded by the mutations ops_per_step[i] (list of op names)."""
+    kind, nv, na = spec["state"], spec["nv"], spec["na"] or 1
+    wscale = 1.0 / math.sqrt(nv) if max(nv, spec["nh"]) > 4 else 1.0
+    nhs = {n: spec["nh"] for n in _nets_of(kind)}
+    base = {k: spec[k] for k in RUN_KEYS}
+    hist = []
+    for i, ops in enumerate(ops_per_step):
+        muts = [rand_mutation(ctx, kind, nv, nhs, na, op=o, wscale=wscale) for o in ops]
+        run = rand_run(ctx, base, same=(same_last and i == len(ops_per_step) - 1))
+        if mid is not None and i in mid:
+            run["mid"] = rand_mid(ctx, spec, run, nhs, wscale)
+        hist.append({"mut": muts, "run": run})
+    spec["history"] = hist
+    return spec
+
+
+def fixed_histories(ctx):
+    """Same-object histories that always run first: every mutation operator, every state type, before any time budget."""
+    plan = [
+        ("positive", [["reinit"]], False, None),
+        ("complex", [["reinit"]], True, None),
+        ("dm", [["reinit"]], False, None),
+        ("complex", [["rbm_init"], ["rbm_init"]], False, None),
+        ("positive", [["rebind"], ["rebind"]], True, None),
+        ("dm", [["rebind"], ["replace_net"]], False, None),
+        ("complex", [["replace_net"], ["replace_net"]], False, None),
+        ("positive", [["replace_net"], ["data_copy"]], False, None),
+        ("dm", [["data_assign"], ["data_copy"]], False, None),
+        ("positive", [["copy_nograd"], ["load_state_dict"]], False, None),
+        ("complex", [["state_load"], ["ext_step"]], False, None),
+        ("dm", [["state_load"], ["copy_nograd", "ext_step"]], True, None),
+        ("complex", [["data_copy"], ["load_state_dict", "rebind"]], False, None),
+        ("positive", [[], []], True, {0, 1}),                # continued training, in-place edits by a callback during the fit
+        ("complex", [[]], False, {0}),
+        ("dm", [["reinit"]], False, {0}),
+    ]
+    out = []
+    for i, (kind, steps, same_last, mid) in enumerate(plan):
+        sp = rand_spec(ctx, kind, 1 + i % 3, ["neg_smaller", "neg_larger", "equal_nodiv", "neg_default"][i % 4], large=False, second=False)
+        sp.update(epochs=2 if i % 2 == 0 else 1, starting_epoch=1, scheduler={"step_size": 1, "gamma": 0.5} if i % 3 != 2 else None)
+        out.append(("history:" + "+".join("/".join(o) or "continue" for o in steps) + ("+mid_fit_edit" if mid else ""),
+                    add_history(ctx, sp, steps, same_last=same_last, mid=mid)))
+    return out
 
 
 def fixed_specs(ctx):
@@ -372,7 +584,7 @@ def build_state(spec):
 # ------------------------------------------------------------------------------------------ recording one state
 SPEC_KEYS = ["state", "nv", "nh", "na", "N", "pos_batch_size", "neg_batch_size", "pattern", "k", "lr", "epochs", "scheduler",
              "data", "bases", "am", "ph", "torch_seed"]
-SPEC_DEFAULTS = {"starting_epoch": 1, "optimizer_args": None, "data_as_tensor": False, "second": None}
+SPEC_DEFAULTS = {"starting_epoch": 1, "optimizer_args": None, "data_as_tensor": False, "second": None, "history": None}
 RUN_KEYS = ["lr", "scheduler", "epochs", "starting_epoch", "k", "neg_batch_size", "pos_batch_size", "optimizer_args", "data_as_tensor"]
 
 
@@ -384,9 +596,15 @@ class Recorder:
         from qucumber.callbacks import CallbackBase
         self.spec = spec
         s = self.s = build_state(spec)
-        nets = self.nets = [getattr(s, n) for n in s.networks]
         self.events = []
         self.spy = BernoulliSpy()
+        self.mid = None                       # pending in-place edit to be made by the callback during the running fit
+        self.ctx = None
+        # objects the caller hands to EVERY fit() call of the history (same objects, refilled / edited in place between calls)
+        self.data_np = np.array(spec["data"], dtype=float)
+        self.data_t = torch.tensor(self.data_np, dtype=torch.double)
+        self.bases_np = None if spec["state"] == "positive" else np.array([list(b) for b in spec["bases"]])
+        self.opt_args, self.sched_args = {}, {}
         R = self
 
         class RecSGD(torch.optim.SGD):
@@ -420,14 +638,21 @@ class Recorder:
 
             def on_batch_start(self, nn_state, epoch, batch):
                 R.events.append(("batch_start", {"ep": epoch, "b": batch}))
+                mid = R.mid
+                if mid is not None and not mid.get("done") and epoch == mid["epoch"] and batch == mid["batch"]:
+                    # a callback edits live parameters IN PLACE (same nn.Parameter objects) before this batch is processed
+                    mid["done"] = True
+                    before = R.live_snap()
+                    apply_mutation(R.ctx, R.s, R.spec["state"], mid)
+                    R.events.append(("mut", {"live_before": before, "live_after": R.live_snap(), "op": mid["op"]}))
 
             def on_batch_end(self, nn_state, epoch, batch):
                 R.events.append(("batch_end", {"ep": epoch, "b": batch}))
 
         self.RecSGD, self.RecStepLR, self.RecCB = RecSGD, RecStepLR, RecCB
+        self.cb = RecCB()                     # the SAME callback object observes every fit() call of the history
         orig_cbg = s.compute_batch_gradients
-        orig_gibbs = s.rbm_am.gibbs_steps
-        open_cbg = []
+        open_cbg = self.open_cbg = []
 
         def cbg(*args, **kw):
             # observation only: accept positional and keyword forms alike
@@ -436,7 +661,7 @@ class Recorder:
             samples_batch, neg_batch, bases_batch = got.get("samples_batch"), got.get("neg_batch"), got.get("bases_batch")
             rec = {"samples": samples_batch.detach().clone(), "neg": neg_batch.detach().clone(),
                    "bases": None if bases_batch is None else np.array(bases_batch).copy(),
-                   "params": [snap(n) for n in nets], "gibbs": []}
+                   "params": R.live_snap(), "gibbs": []}
             if spec["state"] == "positive":
                 pos = s.positive_phase_gradients(samples_batch)
             else:
@@ -453,6 +678,25 @@ class Recorder:
             rec["ret"] = [g.detach().clone() for g in out]
             return out
 
+        s.compute_batch_gradients = cbg
+        self.watch_gibbs()
+
+    @property
+    def nets(self):
+        """The networks the state uses NOW (a network may have been replaced through the public setter)."""
+        return [getattr(self.s, n) for n in self.s.networks]
+
+    def live_snap(self):
+        return [snap(n) for n in self.nets]
+
+    def watch_gibbs(self):
+        """Observation point on the CURRENT amplitude network's gibbs_steps (re-installed when the network was replaced)."""
+        rbm = self.s.rbm_am
+        if "gibbs_steps" in vars(rbm):
+            return
+        orig_gibbs = rbm.gibbs_steps
+        open_cbg = self.open_cbg
+
         def gibbs(*args, **kw):
             names = ["k", "initial_state", "overwrite"]
             got = dict(zip(names, args)); got.update({n: v for n, v in kw.items() if n in names})
@@ -462,33 +706,53 @@ class Recorder:
                 open_cbg[-1]["gibbs"].append({"k": int(got["k"]), "init": init, "vk": out.detach().clone()})
             return out
 
-        s.compute_batch_gradients = cbg
-        s.rbm_am.gibbs_steps = gibbs
+        rbm.gibbs_steps = gibbs
+
+    def mutate(self, ctx, muts):
+        """Apply the mutations of one history step to the live state.  False: a mutation itself raised (nothing the
+        property speaks about: the history ends there, counted)."""
+        for mut in muts:
+            ctx.count("history_mutation:" + mut["op"])
+            try:
+                apply_mutation(ctx, self.s, self.spec["state"], mut)
+            except Exception as e:
+                ctx.count("history_mutation_raised:%s:%s" % (mut["op"], type(e).__name__))
+                return False
+        self.watch_gibbs()
+        return True
 
     def fit(self, ctx, run, case):
         """One real fit() call with the run's arguments.  Returns (ok, events, init_params)."""
         import torch
         spec, s = self.spec, self.s
+        self.ctx = ctx
         self.events = []
         self.spy.calls = []
+        self.mid = copy.deepcopy(run["mid"]) if run.get("mid") else None
+        if self.mid is not None:
+            ctx.count("mid_fit_in_place_edit:" + self.mid["op"])
         se = run["starting_epoch"]
         kw = dict(epochs=se + run["epochs"] - 1, pos_batch_size=run["pos_batch_size"], neg_batch_size=run["neg_batch_size"],
-                  k=run["k"], lr=run["lr"], optimizer=self.RecSGD, callbacks=[self.RecCB()])
+                  k=run["k"], lr=run["lr"], optimizer=self.RecSGD, callbacks=[self.cb])
         if se != 1:
             kw["starting_epoch"] = se
+        # the same dict objects are handed over at every call, their contents replaced in place
         if run.get("optimizer_args") is not None:
-            kw["optimizer_args"] = dict(run["optimizer_args"])
+            self.opt_args.clear(); self.opt_args.update(run["optimizer_args"])
+            kw["optimizer_args"] = self.opt_args
         if run["scheduler"] is not None:
             kw["scheduler"] = self.RecStepLR
-            kw["scheduler_args"] = dict(run["scheduler"])
+            self.sched_args.clear(); self.sched_args.update(run["scheduler"])
+            kw["scheduler_args"] = self.sched_args
         if spec["state"] != "positive":
-            kw["input_bases"] = np.array([list(b) for b in spec["bases"]])
-        data = np.array(spec["data"], dtype=float)
-        if run.get("data_as_tensor"):
-            data = torch.tensor(data, dtype=torch.double)
-        init_params = [snap(n) for n in self.nets]
+            kw["input_bases"] = self.bases_np
+        data = self.data_t if run.get("data_as_tensor") else self.data_np
+        init_params = self.live_snap()
         with self.spy:
             ok, _ = ctx.call("fit", case, lambda: s.fit(data, **kw))
+        if self.mid is not None and not self.mid.get("done"):
+            ctx.count("mid_fit_in_place_edit_not_reached")
+        self.mid = None
         return ok, self.events, init_params
 
 
@@ -535,10 +799,13 @@ def vb_slice(par_am):
 
 
 def runs_of(spec):
+    """[(mutations applied to the live state before the call, arguments of the fit() call)]"""
     first = {k: spec[k] for k in RUN_KEYS}
-    runs = [first]
+    runs = [([], first)]
     if spec.get("second"):
-        runs.append(dict(first, **{k: v for k, v in spec["second"].items() if k in RUN_KEYS}))
+        runs.append(([], dict(first, **{k: v for k, v in spec["second"].items() if k in RUN_KEYS})))
+    for step in (spec.get("history") or []):
+        runs.append((step.get("mut") or [], dict(first, **{k: v for k, v in step["run"].items() if k in RUN_KEYS + ["mid"]})))
     return runs
 
 
@@ -555,7 +822,9 @@ def run_case(ctx, spec, model_every=1, label=None):
     nontriv = (nb != pb and spec["k"] >= 1 and nbatches >= 2 and sched is not None and spec["epochs"] >= 2)
     ctx.case({"state": kind, "nv": spec["nv"], "nh": spec["nh"], "na": spec["na"], "N": N, "pos": pb, "neg": nb_arg,
               "k": spec["k"], "lr": spec["lr"], "epochs": spec["epochs"], "start": spec["starting_epoch"],
-              "scheduler": sched, "fits": len(runs), "seed": spec["torch_seed"]}, nontrivial=nontriv)
+              "scheduler": sched, "fits": len(runs), "seed": spec["torch_seed"],
+              "history": [[mu["op"] for mu in muts] + ([("mid:" + run["mid"]["op"])] if run.get("mid") else []) for muts, run in runs[1:]]},
+             nontrivial=nontriv)
     for key in ("state:" + kind, "k:%d" % spec["k"], "pattern:" + spec["pattern"], "epochs:%d" % spec["epochs"],
                 "starting_epoch:%d" % spec["starting_epoch"], "N:%s" % ("1" if N == 1 else "2" if N == 2 else ">=3"),
                 "shape:%s" % ("tiny" if max(spec["nv"], spec["nh"]) <= 4 else "20..40" if max(spec["nv"], spec["nh"]) <= 40 else ">100"),
@@ -569,8 +838,13 @@ def run_case(ctx, spec, model_every=1, label=None):
     torch.manual_seed(spec["torch_seed"])
     R = Recorder(spec)
     flags = {"need_stat": None}
-    for ri, run in enumerate(runs):
-        rcase = dict(case, fit_call=ri + 1, **{("run_" + k): run[k] for k in ("lr", "scheduler", "epochs", "k", "neg_batch_size")})
+    for ri, (muts, run) in enumerate(runs):
+        if muts and not R.mutate(ctx, muts):
+            break
+        rcase = dict(case, fit_call=ri + 1, mutations_before_this_fit=[mu["op"] for mu in muts],
+                     **{("run_" + k): run[k] for k in ("lr", "scheduler", "epochs", "k", "neg_batch_size")})
+        if run.get("mid"):
+            rcase["in_place_edit_during_this_fit"] = {k: run["mid"][k] for k in ("op", "epoch", "batch")}
         ok, events, init_params = R.fit(ctx, run, rcase)
         if not ok:
             return
@@ -639,7 +913,18 @@ def analyse_run(ctx, spec, run, case, R, events, init_params, model_every, flags
     for ni, net in enumerate(nets):
         for name, p in named_params(net):
             owner[id(p)] = (ni, name)
-    last_after = None
+    # what the state's parameters must hold NOW: the start values, then the result of the last optimizer step (or of an
+    # in-place edit a callback of the harness made during the fit)
+    cur_vals = {(ni, name): init_params[ni][j] for ni in range(len(nets)) for j, name in enumerate(layouts[ni])}
+    stepped = False
+    final = [snap(n) for n in nets]
+    # the LIVE parameters (read through state.<network>.<name> at that moment) right after every optimizer step: the
+    # snapshot taken when the next batch's gradient is requested / before a callback edit / after fit returned
+    live_next = []
+    for ei, (ke, rec) in enumerate(events):
+        if ke == "opt":
+            nxt = next((r for kk, r in events[ei + 1:] if kk in ("cbg", "mut")), None)
+            live_next.append(final if nxt is None else nxt["params"] if "params" in nxt else nxt["live_before"])
     cur = None
     trace = [0 if ke == "opt" else 1 for ke in steps]          # 0 = optimizer step, 1 = scheduler step
     lrs = []
@@ -649,6 +934,8 @@ def analyse_run(ctx, spec, run, case, R, events, init_params, model_every, flags
     for kind_e, rec in events:
         if kind_e == "cbg":
             cur = rec
+        elif kind_e == "mut":
+            cur_vals = {(ni, name): rec["live_after"][ni][j] for ni in range(len(nets)) for j, name in enumerate(layouts[ni])}
         elif kind_e == "opt":
             epoch = epoch_of_step[bi]
             bcase = dict(case, epoch=epoch + 1, batch_index=bi)
@@ -758,10 +1045,34 @@ def analyse_run(ctx, spec, run, case, R, events, init_params, model_every, flags
             else:
                 want = [None] + [p for p in pos[1:]]
                 scale = [1.0] + [max(1.0, float(np.max(np.abs(p)))) for p in pos[1:]]
+            # -- the parameters the state USES (whatever objects the optimizer holds): with plain SGD they move by exactly
+            #    -lr * gradient at this batch, lr from THIS fit call's schedule
+            lr_want = run["lr"] if sched is None else steplr_ref(run["lr"], sched["gamma"], sched["step_size"], epoch)
+            after_live = live_next[bi - 1]
+            for ni in range(len(nets)):
+                off = 0
+                for j, name in enumerate(layouts[ni]):
+                    b0 = par[ni][j]
+                    a1 = after_live[ni][j] if ni < len(after_live) and j < len(after_live[ni]) else None
+                    num = int(b0.size)
+                    block = None if want[ni] is None else want[ni][off:off + num].reshape(b0.shape)
+                    off += num
+                    if block is None:
+                        continue
+                    pc = dict(bcase, network=s.networks[ni], parameter=name)
+                    target = -lr_want * block
+                    okm = a1 is not None and a1.shape == b0.shape
+                    if okm:
+                        tolm = abs(lr_want) * (2e-9 * np.abs(block) + 2e-12 * scale[ni]) + 1e-14 * np.maximum(1.0, np.abs(b0))
+                        okm = bool(np.all(np.abs((a1 - b0) - target) <= tolm))
+                    ctx.require("with plain SGD the state's live parameters move by -lr * (CD gradient), once per batch", okm, pc,
+                                {"moved": None if a1 is None or a1.shape != b0.shape else (a1 - b0).ravel().tolist()[:12],
+                                 "want -lr*grad": target.ravel().tolist()[:12], "lr": lr_want})
             for ni, net in enumerate(nets):
                 off = 0
                 for name in layouts[ni]:
                     if (ni, name) not in seen:
+                        off += int(par[ni][layouts[ni].index(name)].size)
                         continue
                     p, gr, be, af, lr_p = seen[(ni, name)]
                     num = p.numel()
@@ -786,14 +1097,15 @@ def analyse_run(ctx, spec, run, case, R, events, init_params, model_every, flags
                     ctx.require("parameters after step == before - lr*grad", bool(np.all(np.abs(af.numpy() - upd) <= tol)), pc,
                                 {"max_err": float(np.max(np.abs(af.numpy() - upd))), "lr": lr_p})
                     ctx.count("sgd_bit_exact" if np.array_equal(af.numpy(), upd) else "sgd_one_rounding")
-                    prev = init_params[ni][layouts[ni].index(name)] if last_after is None else last_after[(ni, name)]
+                    prev = cur_vals[(ni, name)]
                     ctx.require("parameters change only through optimizer.step (before == previous after)",
                                 np.array_equal(be.numpy(), prev), pc)
                     ctx.require("gradient evaluated at the parameters the step is applied to",
                                 np.array_equal(be.numpy(), par[ni][layouts[ni].index(name)]), pc)
-            last_after = {key: v[3].numpy().copy() for key, v in seen.items()}
+            for key, v in seen.items():
+                cur_vals[key] = v[3].numpy().copy()
+            stepped = stepped or bool(seen)
             # -- learning rate of this epoch (every param group that holds a parameter of the state)
-            lr_want = run["lr"] if sched is None else steplr_ref(run["lr"], sched["gamma"], sched["step_size"], epoch)
             ctx.require("lr of epoch e follows the schedule (one scheduler step per completed epoch)",
                         bool(step_lrs) and all(math.isclose(x, lr_want, rel_tol=1e-12) for x in step_lrs), bcase,
                         {"lr": step_lrs, "want": lr_want, "epoch": epoch + 1})
@@ -838,15 +1150,15 @@ def analyse_run(ctx, spec, run, case, R, events, init_params, model_every, flags
                     ctx.agree("sgd_step %s (flat)" % s.networks[ni], flat_of(af_l), ms, bcase, rtol=1e-12, atol=2e-15, scale=sc_u)
 
     # ---------------------------------------------------------------- end of run
-    final = [snap(n) for n in nets]
-    if last_after is not None:
+    if stepped:
         for ni in range(len(nets)):
             for j, name in enumerate(layouts[ni]):
-                if (ni, name) in last_after:
-                    ctx.require("parameters after fit == parameters after the last optimizer step",
-                                np.array_equal(final[ni][j], last_after[(ni, name)]), dict(case, network=s.networks[ni], parameter=name))
+                ctx.require("parameters after fit == parameters after the last optimizer step",
+                            np.array_equal(final[ni][j], cur_vals[(ni, name)]), dict(case, network=s.networks[ni], parameter=name))
     # whole-run machine: the model driven by the recorded gradient vectors
-    if not big:
+    if "mut" in kinds:
+        ctx.count("fit_machine_not_compared:parameters_edited_in_place_during_the_fit")   # the model machine has no such event
+    elif not big:
         theta0 = np.concatenate([flat_of(p) for p in init_params])
         thetaF = np.concatenate([flat_of(p) for p in final])
         if sched is None:
@@ -913,6 +1225,117 @@ def stat_case(ctx, st, ks, M=40000, why="fixed", fit_case=None):
     return
 
 
+# ------------------------------------------------------------------------------------------ direct per-batch call, histories
+BUFFER_OPS = ["refill_neg", "refill_samples", "edit_bases", "change_k"]
+
+
+def direct_history(ctx, kind, ops, k=None):
+    """The public per-batch method compute_batch_gradients called several times on ONE state with the SAME tensor / array
+    objects; between two calls one mutation of the live state (MUT_OPS) or an in-place refill of a buffer the caller passed
+    before.  After every call the oracle is the one of a fresh object: numpy on the CURRENT parameters and CURRENT contents."""
+    import torch
+    rng = ctx.rng
+    nv, nh, na = int(rng.integers(1, 4)), int(rng.integers(1, 4)), int(rng.integers(1, 3))
+    B, M = int(rng.integers(1, 5)), int(rng.integers(1, 5))
+    k = int(rng.integers(0, 3)) if k is None else k
+    am, ph = _params(ctx, kind, nv, nh, na)
+    spec = {"state": kind, "nv": nv, "nh": nh, "na": na if kind == "dm" else None,
+            "am": gen.plist(*am), "ph": gen.plist(*ph) if ph is not None else None}
+    nhs = {n: nh for n in _nets_of(kind)}
+    samples0 = rng.integers(0, 2, size=(B, nv)).astype(float)
+    neg0 = rng.integers(0, 2, size=(M, nv)).astype(float)
+    bases0 = _bases(rng, kind, B, nv)
+    steps = [None]
+    for o in ops:
+        if o == "refill_neg":
+            steps.append({"op": o, "values": rng.integers(0, 2, size=(M, nv)).astype(float).tolist()})
+        elif o == "refill_samples":
+            steps.append({"op": o, "values": rng.integers(0, 2, size=(B, nv)).astype(float).tolist()})
+        elif o == "edit_bases":
+            steps.append({"op": o, "values": _bases(rng, kind, B, nv)})
+        elif o == "change_k":
+            steps.append({"op": o, "k": int((k + 1 + rng.integers(0, 2)) % 3)})
+        else:
+            steps.append(rand_mutation(ctx, kind, nv, nhs, na, op=o))
+    seed = ctx.torch_seed()
+    case0 = dict(spec, call="compute_batch_gradients (same-object history)", k=k, samples=samples0.tolist(), neg=neg0.tolist(),
+                 bases=bases0, steps=steps[1:], torch_seed=seed)
+    ctx.case({"direct": kind, "nv": nv, "nh": nh, "na": na, "k": k, "B": B, "M": M, "ops": list(ops), "seed": seed}, nontrivial=True)
+    s = build_state(spec)
+    samples_t = torch.tensor(samples0, dtype=torch.double)
+    neg_t = torch.tensor(neg0, dtype=torch.double)
+    bases_np = None if bases0 is None else np.array([list(b) for b in bases0])
+    for ci, step in enumerate(steps):
+        if step is not None:
+            ctx.count("direct_history_op:" + step["op"])
+            if step["op"] == "refill_neg":
+                neg_t.copy_(torch.tensor(step["values"], dtype=torch.double))
+            elif step["op"] == "refill_samples":
+                samples_t.copy_(torch.tensor(step["values"], dtype=torch.double))
+            elif step["op"] == "edit_bases":
+                if bases_np is not None:
+                    bases_np[...] = np.array([list(b) for b in step["values"]])
+            elif step["op"] == "change_k":
+                k = step["k"]
+            else:
+                try:
+                    apply_mutation(ctx, s, kind, step)
+                except Exception as e:
+                    ctx.count("history_mutation_raised:%s:%s" % (step["op"], type(e).__name__))
+                    return
+        case = dict(case0, call_index=ci + 1, k_of_this_call=k)
+        par = [snap(getattr(s, n)) for n in s.networks]
+        neg_np = neg_t.numpy().astype(float).copy()
+        smp_np = samples_t.numpy().astype(float).copy()
+        with BernoulliSpy() as spy:
+            if bases_np is None:
+                ok, got = ctx.call("compute_batch_gradients (direct call)", case, lambda: s.compute_batch_gradients(k, samples_t, neg_t))
+            elif ci % 2 == 0:
+                ok, got = ctx.call("compute_batch_gradients (direct call)", case, lambda: s.compute_batch_gradients(k, samples_t, neg_t, bases_np))
+            else:
+                ok, got = ctx.call("compute_batch_gradients (direct call)", case,
+                                   lambda: s.compute_batch_gradients(k, samples_t, neg_t, bases_batch=bases_np))
+        if not ok:
+            return
+        got = [g.detach().clone().numpy().astype(float) for g in got]
+        pos = s.positive_phase_gradients(samples_t) if bases_np is None else s.positive_phase_gradients(samples_t, bases_batch=bases_np)
+        pos = [p.detach().numpy().astype(float) for p in pos]
+        if not all(np.all(np.isfinite(p)) for p in pos):
+            ctx.count("skipped_nonfinite_positive_phase")
+            return
+        pos_am = np_grad_sum(par[0], smp_np) / float(B) if kind == "positive" else pos[0]
+        if k == 0:
+            vk = neg_np
+        else:
+            states, reason = read_chain(CondNet(par[0]), spy.calls, neg_np, k)
+            vk = states[k] if (reason is None and len(states) > k) else None
+        ctx.traces += 1
+        if vk is None:
+            ctx.count("direct_history_chain_not_observable")
+        else:
+            nt = np_grad_sum(par[0], vk) / float(M)
+            sc = max(1.0, float(np.max(np.abs(pos_am))), float(np.max(np.abs(nt))))
+            ctx.require("amplitude gradient == positive phase - sum grad E(vk) / |neg_batch| on its own parameter",
+                        tclose(got[0], pos_am - nt, 1e-9, 1e-12 * sc), case,
+                        {"got": got[0].tolist()[:12], "want": (pos_am - nt).tolist()[:12], "after": None if step is None else step["op"]})
+        if len(got) > 1:
+            ctx.require("phase gradient == positive phase only on its own parameter",
+                        tclose(got[1], pos[1], 1e-12, 1e-15 * max(1.0, float(np.max(np.abs(pos[1]))))), case,
+                        {"after": None if step is None else step["op"]})
+
+
+def direct_histories(ctx, n_random):
+    kinds = ["positive", "complex", "dm"]
+    fixed = [["reinit", "refill_neg"], ["replace_net", "data_copy"], ["rebind", "refill_samples"], ["load_state_dict", "edit_bases"],
+             ["data_assign", "change_k"], ["state_load", "copy_nograd"], ["rbm_init", "ext_step"], ["refill_neg", "refill_neg"],
+             ["change_k", "reinit"]]
+    for i, ops in enumerate(fixed):
+        direct_history(ctx, kinds[i % 3], ops, k=[0, 1, 2][(i // 3) % 3])
+    for i in range(n_random):
+        ops = [str(o) for o in ctx.rng.choice(MUT_OPS + BUFFER_OPS, size=int(ctx.rng.integers(1, 4)))]
+        direct_history(ctx, str(ctx.rng.choice(kinds)), ops)
+
+
 # ------------------------------------------------------------------------------------------ direct vector_to_grads cases
 def v2g_cases(ctx, n):
     """vector_to_grads called directly.  Exact-length vectors: every parameter must receive its slice (oracle + model).
@@ -958,6 +1381,38 @@ def v2g_cases(ctx, n):
                             dict(case, parameter_index=j))
                 if p.grad is not None and tuple(p.grad.shape) == tuple(p.shape):
                     ctx.agree("vector_to_grads slice %d" % j, p.grad, mr[0][j][1], case, rtol=0.0, atol=0.0)
+            # -- same-object history: the same network (and, for "refill", the same vector object) again after a legal change
+            how = str(ctx.rng.choice(["reinit", "rebind_one", "refill_vec", "data_assign", "as_list"]))
+            ctx.count("v2g_history:" + how)
+            vec_t = torch.tensor(vec, dtype=torch.double)
+            try:
+                vector_to_grads(vec_t, rbm.parameters())
+                vec2 = ctx.rng.normal(size=L)
+                if how == "reinit":
+                    rbm.initialize_parameters()
+                elif how == "rebind_one":
+                    name = str(ctx.rng.choice(layout_of(rbm)))
+                    setattr(rbm, name, torch.nn.Parameter(torch.zeros_like(getattr(rbm, name).data), requires_grad=False))
+                elif how == "data_assign":
+                    for q in rbm.parameters():
+                        q.data = torch.ones_like(q.data)
+                if how == "refill_vec":
+                    vec_t.copy_(torch.tensor(vec2, dtype=torch.double))
+                else:
+                    vec_t = torch.tensor(vec2, dtype=torch.double)
+                vector_to_grads(vec_t, list(rbm.parameters()) if how == "as_list" else rbm.parameters())
+                raised2 = False
+            except Exception as e:
+                raised2 = True
+            hcase = dict(case, history=how, vec_second_call=vec2.tolist())
+            ctx.require("vector_to_grads accepts a vector of exactly the total parameter count", not raised2, hcase)
+            if not raised2:
+                off = 0
+                for j, p in enumerate(rbm.parameters()):
+                    want = vec2[off:off + p.numel()].reshape(tuple(p.shape)); off += p.numel()
+                    ctx.require("parameter j receives the slice at offset sum_{i<j} numel_i with its own shape",
+                                p.grad is not None and tuple(p.grad.shape) == tuple(p.shape) and np.array_equal(p.grad.numpy(), want),
+                                dict(hcase, parameter_index=j))
 
 
 # ------------------------------------------------------------------------------------------ entry points
@@ -980,8 +1435,11 @@ def run(ctx):
     # 1. regimes the random stream rarely reaches: always first
     for st in stat_fixed(ctx):
         stat_case(ctx, st, [1, 2] if not ctx.thorough else [1, 2, 3], M=40000 if not ctx.thorough else 200000)
+    for label, sp in fixed_histories(ctx):           # same-object histories: every mutation operator x state type, never cut
+        run_case(ctx, sp, label=label)
     for label, sp in fixed_specs(ctx):
         run_case(ctx, sp, label=label)
+    direct_histories(ctx, 60 if ctx.thorough else 12)
     # 2. covering grid, direct vector_to_grads
     for (kind, k, pat) in grid(ctx):
         run_case(ctx, rand_spec(ctx, kind, k, pat, large=False))
@@ -1025,8 +1483,8 @@ def shrink(ctx, rec):
         return rec
     spec = _spec_of(case)
     best = rec
-    for mod in ({"second": None}, {"second": None, "epochs": 1, "starting_epoch": 1},
-                {"second": None, "epochs": 1, "starting_epoch": 1, "scheduler": None}):
+    for mod in ({"second": None, "history": None}, {"second": None, "history": None, "epochs": 1, "starting_epoch": 1},
+                {"second": None, "history": None, "epochs": 1, "starting_epoch": 1, "scheduler": None}):
         trial = dict(spec, **mod)
         sub = _silent_ctx(ctx)
         try:
